@@ -8,6 +8,7 @@ namespace libphysica
 template bool Lists_Equal<double>(const std::vector<double>&, const std::vector<double>&);
 template std::vector<double> Combine_Lists<double>(const std::vector<double>&, const std::vector<double>&);
 template std::vector<std::vector<double>> Transpose_Lists<double>(const std::vector<std::vector<double>>&);
+template std::vector<std::vector<double>> Transpose_Lists<double>(const std::vector<double>&, const std::vector<double>&);
 template std::vector<double> Sub_List<double>(const std::vector<double>&, int, unsigned int);
 template std::vector<double> Flatten_List<double>(const std::vector<std::vector<double>>&);
 template bool List_Contains<double>(const std::vector<double>&, double);
